@@ -349,6 +349,16 @@ def pi2_import_closure(module):
     return sorted(seen)
 
 
+CORR_KEYS = ('model-', 'converter-differs', 'conv-harness', 'spec-', 'not-in-shape', 'not-in-fragment', 'count-text-differs', 'kdef-driver',
+             'builder-text-differs', 'hints-spec-differs')
+
+
+def is_correspondence(f):
+    """a finding that says "model / specification / generated text and the code (or the generator) differ" — a broken tie, not an
+    input on which the property itself fails: reported with `no-failing-input-found` unless a property-level finding exists"""
+    return f.get('what', '').startswith('correspondence') or any(f.get('key', '').startswith(k) for k in CORR_KEYS)
+
+
 def proof_gate(rep, module, theorems, extra_targets=('pi2drv',)):
     """build the property module + driver, audit axioms.  Returns (ok, detail dict).
     ok=False means a proof obligation is broken (the caller must search for a failing input)."""
